@@ -322,6 +322,10 @@ def ev(n, env, funcs=None):
             return type(args[0])
         if isinstance(f, ast.Name) and fname == 'str' and len(args) == 1 and isinstance(args[0], (type, str, int, float)):
             return str(args[0])
+        if isinstance(f, ast.Name) and fname == 'str' and len(args) == 1 and (args[0] is None or isinstance(args[0], (PyStub, Obj, list, tuple, dict))):
+            if isinstance(args[0], Obj) and '__str__' in args[0].methods:
+                return args[0].call('__str__')
+            return '<%s>' % type(args[0]).__name__ if isinstance(args[0], (PyStub, Obj)) else str(args[0])
         if fname in ('int', 'float', 'bool') and len(args) == 1:
             return {'int': int, 'float': float, 'bool': bool}[fname](args[0])
         kw_ = {k.arg: ev(k.value, env, funcs) for k in n.keywords if k.arg}
